@@ -482,6 +482,9 @@ class Terms:
                 return inner[1][1]
             if inner[0] == "const" and fn[2] == "encode" and isinstance(inner[1], str) and not args:
                 return ("const", inner[1].encode())
+        # struct.pack(<constant format>, a..) is Struct(<format>).pack(a..): ONE spelling of a struct packer
+        if fn == ("glob", "struct.pack") and args and args[0][0] == "const" and isinstance(args[0][1], str) and not kwargs and not any(a[0] == "star" for a in args):
+            fn, args = ("const", StructMethod(StructConst(args[0][1]), "pack")), args[1:]
         # constant folding of calls on constants
         if fn[0] == "const":
             v = fn[1]
@@ -677,8 +680,89 @@ def _merge_zero_pack(parts: list) -> list:
             fmt = a[1][1].struct.fmt
             out[i : i + 2] = [("call", ("const", StructMethod(StructConst(fmt + _ZERO_FIELD[zb]), "pack")), tuple(a[2]) + (("const", 0),), ()) + tuple(a[4:])]
             continue
+        if is_pack(a) and is_pack(b) and a[1][1].struct.fmt[0] == b[1][1].struct.fmt[0] and not any(x[0] == "star" for x in a[2] + b[2]):
+            # two packs of the same byte order side by side are one pack of all the fields
+            fa, fb = a[1][1].struct.fmt, b[1][1].struct.fmt
+            out[i : i + 2] = [("call", ("const", StructMethod(StructConst(fa + fb[1:]), "pack")), tuple(a[2]) + tuple(b[2]), ()) + tuple(a[4:])]
+            continue
         i += 1
     return out
+
+
+_STRUCT_SIZES = {"b": 1, "B": 1, "h": 2, "H": 2, "i": 4, "I": 4, "l": 4, "L": 4, "q": 8, "Q": 8, "?": 1, "x": 1}
+
+
+def _struct_layout(fmt: str):
+    """[(offset, size, code)] of the value-producing fields of a standard-size format (explicit byte order) or None"""
+    import re
+
+    if fmt[:1] not in ("<", ">", "!", "="):
+        return None
+    order = "little" if fmt[0] == "<" else "big" if fmt[0] in (">", "!") else None
+    if order is None:
+        return None
+    out, off = [], 0
+    for cnt, code in re.findall(r"(\d*)([a-zA-Z?])", fmt[1:]):
+        if code not in _STRUCT_SIZES:
+            return None
+        for _ in range(int(cnt) if cnt else 1):
+            if code != "x":
+                out.append((off, _STRUCT_SIZES[code], code))
+            off += _STRUCT_SIZES[code]
+    return order, out
+
+
+def byte_field(t):
+    """A term that reads an integer out of a byte string -> (base, offset, size, byte order, signed) or None.
+
+    One reading for the spellings of "the unsigned little-endian 16 bits at offset 9":
+        Struct("<HHBB").unpack(b[9:15])[0]      Struct("<HHBB").unpack_from(b, 9)[0]      int.from_bytes(b[9:11], "little")
+    and for a single byte ``b[13]`` (byte order "any").  Offsets and sizes must be constants."""
+    t = strip_sites(t)
+    if t[0] == "sub" and len(t) == 3 and t[2][0] == "const" and isinstance(t[2][1], int) and t[1][0] == "call" and not t[1][3] \
+            and t[1][1][0] == "const" and isinstance(t[1][1][1], StructMethod) and t[1][1][1].method in ("unpack", "unpack_from"):
+        sm, args, i = t[1][1][1], t[1][2], t[2][1]
+        lay = _struct_layout(sm.struct.fmt)
+        if lay is None or not 0 <= i < len(lay[1]) or not args:
+            return None
+        order, fields = lay
+        off, size, code = fields[i]
+        base, start = args[0], 0
+        if sm.method == "unpack":
+            if len(args) != 1:
+                return None
+            if base[0] == "sub" and len(base) == 3 and base[2][0] == "slice" and base[2][3] is None:
+                lo = base[2][1]
+                if lo is not None and not (lo[0] == "const" and isinstance(lo[1], int) and lo[1] >= 0):
+                    return None
+                base, start = base[1], (lo[1] if lo is not None else 0)
+        else:
+            if len(args) == 2:
+                if not (args[1][0] == "const" and isinstance(args[1][1], int) and args[1][1] >= 0):
+                    return None
+                start = args[1][1]
+            elif len(args) != 1:
+                return None
+        return base, start + off, size, (order if size > 1 else "any"), code.islower() and code != "?"
+    if t[0] == "call" and t[1] in (("glob", "int.from_bytes"), ("attr", ("glob", "int"), "from_bytes")) and t[2]:
+        kw = dict(t[3])
+        order = t[2][1] if len(t[2]) >= 2 else kw.get("byteorder", ("const", "big"))
+        signed = kw.get("signed", ("const", False))
+        src = t[2][0]
+        if order[0] != "const" or signed[0] != "const" or len(t[2]) > 2:
+            return None
+        if src[0] == "sub" and len(src) == 3 and src[2][0] == "slice" and src[2][3] is None:
+            lo, hi = src[2][1], src[2][2]
+            lo_v = 0 if lo is None else lo[1] if lo[0] == "const" and isinstance(lo[1], int) else None
+            hi_v = hi[1] if hi is not None and hi[0] == "const" and isinstance(hi[1], int) else None
+            if lo_v is None or hi_v is None or lo_v < 0 or hi_v <= lo_v:
+                return None
+            size = hi_v - lo_v
+            return src[1], lo_v, size, (order[1] if size > 1 else "any"), bool(signed[1])
+        return None
+    if t[0] == "sub" and len(t) == 3 and t[2][0] == "const" and isinstance(t[2][1], int) and not isinstance(t[2][1], bool) and t[2][1] >= 0:
+        return t[1], t[2][1], 1, "any", False
+    return None
 
 
 def fold_term(t):
